@@ -94,6 +94,7 @@ struct RunResult {
         uint64_t log_hash = 0;
         uint64_t suffix_hash = 0;          // events after OP_MARK only
         std::vector<uint64_t> task_hash;   // per-task history hash (C17)
+        std::vector<uint64_t> task_hash_user; // the same plus what imb_get_errno() returns after every op (C17)
         std::vector<Violation> viols;
         bool crashed = false;
         uint64_t ctr[CT_N] = { 0 };
